@@ -15,11 +15,11 @@
    - the heap array behind container/heap is modelled abstractly as a list; its order
      `Less` (deadline, then larger id first) is total and strict, so the array layout is
      unobservable (probed by the harness);
-   - a node is identified by its id: ids grow strictly (nextID) until the id counter
-     wraps, so `refer[id] == node` of the code is [alive refer n] here (exact as long as
-     no id is handed out again while a cancelled node carrying it is still linked or
-     queued, which needs a wrap of the 63-bit counter; the theorems carry the explicit
-     bound, the id allocation itself is modelled with the wrap);
+   - a node is named by a key that is never reused ([nid]; this machine's own counter
+     counts start calls), so `refer[id] == node` of the code is [alive refer n] here.  The
+     ids the application sees — which nextID() may hand out again after its counter
+     wrapped, while an old cancelled node that carried the id is still linked or queued —
+     are the layer of Vid.v on top (transparent until the counter wraps: VidProofs.v);
    - geometry constants come from Generated/Consts.v. *)
 From Coq Require Import ZArith List Bool.
 From FV Require Import Generated.Consts.
